@@ -237,6 +237,26 @@ func configure(g *gen) {
 	for _, n := range []string{"InterceptAll", "MaxNumCaches", "CachingWithNum"} {
 		add(FnSpec{Func: n, Lean: "Opt." + n, Inner: true, MutParams: []string{"r"}, RetExtra: []string{"r"}, RetExtraT: []string{"Router"}})
 	}
+	// middleware.go: the six adapters that turn a std http.Handler / http.HandlerFunc into a rux handler.  The context is
+	// the list of calls made with it: (the std handler, its first argument, its second argument)
+	wcT := map[string]T{"*rux.Context": {"opaque", "List (Nat × GoRt.CArg × GoRt.CArg)"}, "http.Handler": {"opaque", "Nat"}, "http.HandlerFunc": {"opaque", "Nat"}}
+	wcExts := []Ext{
+		{Callee: "c.Resp", Value: "GoRt.CArg.resp", T: T{"opaque", "GoRt.CArg"}},
+		{Callee: "c.Req", Value: "GoRt.CArg.req", T: T{"opaque", "GoRt.CArg"}},
+		{Callee: "gh.ServeHTTP", Stmts: []string{"c := c ++ [(gh, %1, %2)]"}},
+		{Callee: "hf", Stmts: []string{"c := c ++ [(hf, %1, %2)]"}},
+	}
+	for _, n := range []string{"WrapHTTPHandler", "WrapHTTPHandlerFunc"} {
+		add(FnSpec{Func: n, Lean: n, Inner: true, MutParams: []string{"c"}, RetExtra: []string{"c"},
+			RetExtraT: []string{"List (Nat × GoRt.CArg × GoRt.CArg)"}, Types: wcT, Exts: wcExts})
+	}
+	hfFn := map[string]T{"rux.HandlerFunc": {"opaque", "(List (Nat × GoRt.CArg × GoRt.CArg) → List (Nat × GoRt.CArg × GoRt.CArg))"},
+		"http.Handler": {"opaque", "Nat"}, "http.HandlerFunc": {"opaque", "Nat"}}
+	for _, n := range []string{"WrapH", "HTTPHandler", "WrapHF", "HTTPHandlerFunc"} {
+		add(FnSpec{Func: n, Lean: n, Types: hfFn})
+	}
+	add(FnSpec{Recv: "HandlersChain", Func: "Last", Lean: "HandlersChain.Last",
+		Types: map[string]T{"rux.HandlersChain": {"opaque", "List Nat"}, "rux.HandlerFunc": {"opaque", "Option Nat"}}})
 	// middleware.go `combineHandlers`: a NEW slice of the exact size, filled by two `copy` calls
 	add(FnSpec{Func: "combineHandlers", Lean: "combineHandlers"})
 	// route.go: what the route cache stores — `copyWithParams` (a copy of the route without the compiled pattern, with a
@@ -403,6 +423,17 @@ func configure(g *gen) {
 	// context.go
 	add(FnSpec{Recv: "Context", Func: "Abort", Lean: "Ctx.Abort"})
 	add(FnSpec{Recv: "Context", Func: "IsAborted", Lean: "Ctx.IsAborted"})
+	add(FnSpec{Recv: "Context", Func: "AbortThen", Lean: "Ctx.AbortThen"})
+	// the per-request data map and error list: `c.data` is nil until the first Set; values are `GoRt.DV`, errors identities
+	dataT := map[string]T{"any": {"opaque", "GoRt.DV"}, "error": {"opaque", "Option Nat"}, "map[string]any": {"opaque", "Option GoRt.Data"}}
+	dataExts := []Ext{
+		{Callee: "make(map[string]any)", Value: "(some ([] : GoRt.Data))", T: T{"opaque", "Option GoRt.Data"}},
+		{Callee: "$.data[]=", Effect: "{ $ with data := GoRt.dataPut $.data %1 %2 }"},
+		{Callee: "$.data[]", Values: []string{"(GoRt.dataGet $.data %1).1", "(GoRt.dataGet $.data %1).2"}, Ts: []T{{"opaque", "GoRt.DV"}, tBool}},
+	}
+	for _, n := range []string{"Set", "Get", "SafeGet", "Data"} {
+		add(FnSpec{Recv: "Context", Func: n, Lean: "Ctx." + n, Types: dataT, Exts: dataExts})
+	}
 	// AbortWithStatus: `c.Resp` is taken to be the context's own writer (`respOwn`; a handler that replaced c.Resp is
 	// outside this translation); net/http.Error is its documented sequence on that writer: WriteHeader(code), then
 	// one Write of msg + "\n" (the header map is not modelled here); the underlying writer's answer is an input
